@@ -33,7 +33,19 @@ func vSchema(w *vWorld, capacity int, rule func(Reader) bool) *Collection {
 	if rule != nil {
 		vndAssert(c.CreateIndex("idx", "a", rule) == nil, "CreateIndex failed")
 	}
+	if w.computed {
+		vComputed(c)
+	}
 	return c
+}
+
+// vComputed adds computed columns that are not bitmap indexes (a sorted index and a trigger) and,
+// AFTER them, one more data column: the snapshot's per-block buffer count has to agree with what
+// the columns actually emit.
+func vComputed(c *Collection) {
+	vndAssert(c.CreateSortIndex("srt", "b") == nil, "CreateSortIndex failed")
+	vndAssert(c.CreateTrigger("trg", "b", func(r Reader) {}) == nil, "CreateTrigger failed")
+	vndAssert(c.CreateColumn("late", ForInt64()) == nil, "CreateColumn failed")
 }
 
 // VerifC07Restore: a collection reached by a history (arbitrary values, one or several blocks,
@@ -46,6 +58,32 @@ func VerifC07Restore() {
 	w := vNewWorld(vndParam("cap"), kind, vndParam("fam"), Options{})
 	rule, oracle := vPredicate(kind)
 	vndAssert(w.c.CreateIndex("idx", "a", rule) == nil, "CreateIndex failed")
+	var late [vMaxRows]uint64
+	if vndParam("computed") == 1 {
+		w.computed = true
+		vComputed(w.c)
+		for i := 0; i < w.n; i++ {
+			late[i] = vndU64("late")
+			v := late[i]
+			w.c.QueryAt(w.off[i], func(r Row) error { r.SetInt64("late", int64(v)); return nil })
+		}
+	}
+	nlate := w.n
+	checkLate := func(c *Collection, what string) {
+		if !w.computed {
+			return
+		}
+		for i := 0; i < nlate; i++ {
+			if !w.live[i] {
+				continue
+			}
+			c.QueryAt(w.off[i], func(r Row) error {
+				v, ok := r.Int64("late")
+				vndAssert(ok && uint64(v) == late[i], what+": a column created after a sorted index / trigger lost its value")
+				return nil
+			})
+		}
+	}
 	T, M := vndParam("T"), vndParam("M")
 	menu, maxLen := vndParam("menu"), vndParam("maxLen")
 	round := func(what string) {
@@ -59,6 +97,7 @@ func VerifC07Restore() {
 		vndAssert(fresh.Restore(dst) == nil, what+": Restore failed")
 		w.check(fresh, what+" restored")
 		w.checkIndex(fresh, "idx", oracle, what+" restored")
+		checkLate(fresh, what+" restored")
 		w.c = fresh
 	}
 	for t := 0; t < T; t++ {
